@@ -91,7 +91,7 @@ CMR_ERROR CMRregularityDecomposeSeriesParallel(CMR* cmr, DecompositionTask* task
     else
     {
       /* We carry out the first SP reduction as a 2-separation. */
-      assert(numReductions == SIZE_MAX);
+      assert(numReductions == SIZE_MAX || numReductions == 1);
 
       char buffer[16];
       CMRdbgMsg(8, "-> applying reduction (%s,%s) as a 2-separation.\n", CMRelementString(reductions[0].element, NULL),
